@@ -48,7 +48,13 @@ class RetainingSink:
         return len(data)
 
     def value(self):
-        return b"".join(bytes(c) for c in self.chunks)
+        out = []
+        for c in self.chunks:
+            try:
+                out.append(bytes(c))
+            except Exception as e:  # noqa: BLE001 - e.g. a memoryview released after write() returned
+                out.append(f"<<chunk unusable after write() returned: {type(e).__name__}: {e}>>".encode())
+        return b"".join(out)
 
 
 def widen_arrays(obj, n=600):
